@@ -270,6 +270,19 @@ class NCDomain(BaseDomain):
 
     def getitem(self, interp, obj, idx, node):
         if isinstance(obj, QM):
+            # a slice that covers the whole extent of every axis is the matrix itself; a proper sub-block of a matrix word has no
+            # representation in this domain
+            if obj.shape is not None:
+                ix = idx if isinstance(idx, tuple) else (idx,)
+                if len(ix) <= len(obj.shape) and all(isinstance(i, slice) for i in ix):
+                    full = True
+                    for i, dim in zip(ix, obj.shape):
+                        start = 0 if i.start is None else int(P(i.start).const_value()) if isinstance(i.start, Poly) else i.start
+                        stop = dim if i.stop is None else int(P(i.stop).const_value()) if isinstance(i.stop, Poly) else i.stop
+                        if i.step not in (None, 1) or start != 0 or not (isinstance(stop, int) and stop >= dim):
+                            full = False
+                    if full:
+                        return obj
             raise Unsupported(f"indexing a matrix word at {interp.where(node)}")
         return super().getitem(interp, obj, idx, node)
 
